@@ -3,7 +3,7 @@
    decoders/encoders of sx, no logic that a property theorem speaks about. *)
 From Coq Require Import ZArith List Bool.
 From V Require Import Result Bytes TypeName Utf8 Float32 Codec AuxTable.
-From V Require World WorldRun Cfg CfgRun ByteStore ByteRun Proto ProtoRun SeqOps SeqRun.
+From V Require World WorldRun Cfg CfgRun ByteStore ByteRun Proto ProtoRun SeqOps SeqRun SetAlg SetAlgRun.
 Import ListNotations.
 Open Scope Z_scope.
 
@@ -150,5 +150,7 @@ Definition run (req : sx) : sx :=
   | L [A 31; size; init; contents; items] => ByteRun.run_bytes size init contents items
   (* 50: the read-only sequence protocol on one list of node ids *)
   | L [A 50; l; qs] => SeqRun.run_seq l qs
+  (* 51: the non-mutating set operators and comparisons on two member lists *)
+  | L [A 51; a; b] => SetAlgRun.run_setalg a b
   | _ => L [A (-2)]
   end.
